@@ -9,30 +9,53 @@ C20_OPS = ["ModifyExpr", "RenameRule", "ChangeKind", "AddRule", "DeleteRule", "S
            "RenameFile", "RevertLast", "WhitespaceEdit"]
 
 
-def gen_cases(ctx):
+def gen_jobs(ctx):
     th = ctx.thorough
-    cases, stats = [], []
-
-    def add(name, text, **kw):
-        cs, r = gh.gen(ctx, name, text, **kw)
-        cases.extend(cs)
-        stats.append({"cfg": name, "emitted": len(cs), "states": r["distinct"], "generated": r["generated"]})
-
-    # (1) exhaustive: one provider name, recording and alerting, every reference kind, two files, <=2 commits
-    add("c20_gen_small.cfg", gh.cfg("EmitCase", npaths=2, kinds=["rec", "alr"], names=["n1"], bodies=["v1", "m:n1", "A:n1"],
-                                     labs=["l1"], maxrules=2, maxfork=2, commits=1 if not th else 2,
-                                     ops=["ModifyExpr", "ChangeKind", "AddRule", "DeleteRule", "DeleteFile", "RenameFile"]))
-    exhaustive = gh.dedupe(cases)
-    if not th:
-        exhaustive = gh.stratify(exhaustive, 500, ctx.seed)
-    # (2) simulation: three files, duplicate providers, two-selector expressions, replacements
-    cases = []
     wide = dict(npaths=3, kinds=["rec", "alr"], names=["n1", "n2"],
                 bodies=["v1", "m:n1", "m:n2", "A:n1", "S:n1", "A:n2", "m:n1+m:n2", "m:n2+A:n1", "S:n2+A:n2"],
-                labs=["l1"], cmts=["none"], pads=[0, 1], maxrules=3, maxfork=5, commits=3, baseadv=0, ops=C20_OPS)
-    add("c20_sim_wide.cfg", gh.cfg("EmitCase", **wide), simulate=6 if not th else 50, depth=12, workers=1)
-    sim = gh.stratify(gh.dedupe(cases), 700 if not th else 12000, ctx.seed)
-    return gh.dedupe(exhaustive + sim), stats
+                labs=["l1"], cmts=["none"], pads=[0, 1], maxrules=3, maxfork=5, commits=3 if not th else 4, baseadv=0, ops=C20_OPS)
+    return [
+        # (1) exhaustive: one provider name, recording and alerting, every reference kind, two files
+        ("c20_gen_small.cfg", gh.cfg("EmitCase", npaths=2, kinds=["rec", "alr"], names=["n1"], bodies=["v1", "m:n1", "A:n1"],
+                                      labs=["l1"], maxrules=2, maxfork=2, commits=1 if not th else 2,
+                                      ops=["ModifyExpr", "ChangeKind", "AddRule", "DeleteRule", "DeleteFile", "RenameFile"]),
+         500 if not th else 6000, dict(workers=2 if not th else 6)),
+        # (2) simulation: three files, duplicate providers, two-selector expressions, replacements
+        ("c20_sim_wide.cfg", gh.cfg("EmitCase", **wide), 700 if not th else 9000,
+         dict(simulate=6 if not th else 50, depth=12 if not th else 14, workers=1)),
+    ]
+
+
+def mc_jobs(ctx, mode):
+    th = ctx.thorough
+    runs = [
+        ("c20_mc.cfg", dict(npaths=2, kinds=["rec", "alr"], names=["n1"], bodies=["v1", "m:n1", "A:n1"], labs=["l1"],
+                            maxrules=2, maxfork=2, commits=2 if not th else 3,
+                            ops=["ModifyExpr", "RenameRule", "ChangeKind", "AddRule", "DeleteRule", "DeleteFile", "RenameFile"] +
+                                (["AddFile", "RevertLast"] if th else []))),
+        # duplicate providers over three files: removal subsets of a fixed rule population
+        ("c20_mc_dups.cfg", dict(npaths=3, kinds=["rec"], names=["n1", "n2"], bodies=["v1", "m:n1", "m:n1+m:n2"], labs=["l1"],
+                                 maxrules=2, maxfork=3 if not th else 4, commits=2 if not th else 3,
+                                 ops=["DeleteRule", "DeleteFile", "RenameFile"])),
+    ]
+    return [(name, gh.cfg("Inv_C20", view=True, mode=mode, **kw), 4 if not th else 6) for name, kw in runs]
+
+
+def model_and_cases(ctx, mode):
+    ctx._spec_copy()
+    gj, mj = gen_jobs(ctx), mc_jobs(ctx, mode)
+    jobs = [(lambda j=j: gh.gen(ctx, j[0], j[1], **j[3])) for j in gj]
+    jobs += [(lambda j=j: ctx.tlc("GitHistory", j[0], files={j[0]: j[1]}, allow_violation=True, timeout=3000,
+                                  workers=j[2], heap="4g")) for j in mj]
+    res = gh.run_parallel(jobs)
+    parts, stats = [], []
+    for j, (cs, r) in zip(gj, res[:len(gj)]):
+        d = gh.dedupe(cs)
+        pick = gh.stratify(d, j[2], ctx.seed)
+        parts.extend(pick)
+        stats.append({"cfg": j[0], "emitted": len(cs), "distinct": len(d), "replayed": len(pick),
+                      "states": r["distinct"], "generated": r["generated"]})
+    return gh.dedupe(parts), stats, res[len(gj):]
 
 
 def c20_sig(v):
@@ -40,10 +63,11 @@ def c20_sig(v):
 
 
 def run(ctx, cases_override=None):
+    mode = gh.probe_mode(ctx)
     if cases_override is None:
-        cases, gstats = gen_cases(ctx)
+        cases, gstats, mc_stats = model_and_cases(ctx, mode)
     else:
-        cases, gstats = cases_override, []
+        cases, gstats, mc_stats = cases_override, [], []
     if not cases:
         raise MachineryError("GEN produced no cases")
     tpath, trace = gh.execute(ctx, cases, "c20")
@@ -51,7 +75,7 @@ def run(ctx, cases_override=None):
     tags = {}
     for t, v in out:
         tags.setdefault(t, []).append(v)
-    for bad in ("GITDRIFT", "UNMAPPED", "FAILED", "OTHER"):
+    for bad in ("GITDRIFT", "LAYOUTDRIFT", "FAILED", "OTHER"):
         if tags.get(bad):
             cid = tags[bad][0][0]
             raise MachineryError("%s in case %s: %s\ncase: %s" % (bad, cid, json.dumps(tags[bad][0][1:])[:1500],
@@ -68,18 +92,9 @@ def run(ctx, cases_override=None):
                       "case": cases[cid - 1], "detail": v})
     drift = ["case %s: rule/dependency problems differ from the transcription of RuleDependencyCheck (ops %s): %s" % (
         cid, ",".join(d["ops"]), json.dumps(d["observed"])[:300]) for cid, prop, d in tags.get("DRIFT", []) if prop == "C20"]
-    mc_stats, leads = [], []
+    leads = []
     if cases_override is None:
-        th = ctx.thorough
-        mc = ctx.tlc("GitHistory", "c20_mc.cfg", files={"c20_mc.cfg": gh.cfg(
-            "Inv_C20", view=True, npaths=2, kinds=["rec", "alr"], names=["n1"], bodies=["v1", "m:n1", "A:n1"], labs=["l1"],
-            maxrules=2, maxfork=2, commits=2 if not th else 3,
-            ops=["ModifyExpr", "RenameRule", "ChangeKind", "AddRule", "DeleteRule", "DeleteFile", "RenameFile"] +
-                (["AddFile", "RevertLast"] if th else []))},
-            allow_violation=True, timeout=3000, workers=6 if not th else 12)
-        mc_stats.append(mc)
-        if mc["invariant_violated"]:
-            leads.append(mc["invariant_violated"])
+        leads = [m["invariant_violated"] for m in mc_stats if m["invariant_violated"]]
         if leads and not viols:
             raise MachineryError("model-level counterexample (%s) not reproduced on the real code: spec bug" % leads)
     nd = tags.get("NDEPS", [])
